@@ -17,6 +17,9 @@ pub struct MemoryStore {
     memory: Storage,
     timer: Arc<dyn timer::Timer + Send + Sync>,
     cas_id: AtomicU64,
+    /// sum of `Record::len` over `memory`; every insertion, replacement and
+    /// removal adjusts it by exactly the sizes it put in and took out
+    memory_usage: AtomicU64,
 }
 
 type StorageReadOnlyView = ReadOnlyView<KeyType, Record>;
@@ -42,6 +45,16 @@ impl MemoryStore {
             memory: DashMap::new(),
             timer,
             cas_id: AtomicU64::new(1),
+            memory_usage: AtomicU64::new(0),
+        }
+    }
+
+    fn account(&self, added: usize, removed: usize) {
+        if added > 0 {
+            self.memory_usage.fetch_add(added as u64, Ordering::Release);
+        }
+        if removed > 0 {
+            self.memory_usage.fetch_sub(removed as u64, Ordering::Release);
         }
     }
 
@@ -106,7 +119,11 @@ impl impl_details::CacheImplDetails for MemoryStore {
 impl Cache for MemoryStore {
     // Removes key value and returns as an option
     fn remove(&self, key: &KeyType) -> Option<(KeyType, Record)> {
-        self.memory.remove(key)
+        let removed = self.memory.remove(key);
+        if let Some((_key, record)) = &removed {
+            self.account(0, record.len());
+        }
+        removed
     }
 
     fn set(&self, key: KeyType, mut record: Record) -> Result<SetStatus> {
@@ -120,7 +137,9 @@ impl Cache for MemoryStore {
                         record.header.cas = self.get_cas_id();
                         record.header.timestamp = self.timer.timestamp();
                         let cas = record.header.cas;
+                        let (added, removed) = (record.len(), key_value.len());
                         *key_value = record;
+                        self.account(added, removed);
                         Ok(SetStatus { cas })
                     }
                 }
@@ -129,7 +148,9 @@ impl Cache for MemoryStore {
                     record.header.cas = record.header.cas.wrapping_add(1).max(1);
                     record.header.timestamp = self.timer.timestamp();
                     let cas = record.header.cas;
-                    self.memory.insert(key, record);
+                    let added = record.len();
+                    let replaced = self.memory.insert(key, record);
+                    self.account(added, replaced.map_or(0, |old| old.len()));
                     Ok(SetStatus { cas })
                 }
             }
@@ -137,7 +158,9 @@ impl Cache for MemoryStore {
             let cas = self.get_cas_id();
             record.header.cas = cas;
             record.header.timestamp = self.timer.timestamp();
-            self.memory.insert(key, record);
+            let added = record.len();
+            let replaced = self.memory.insert(key, record);
+            self.account(added, replaced.map_or(0, |old| old.len()));
             Ok(SetStatus { cas })
         }
     }
@@ -149,7 +172,10 @@ impl Cache for MemoryStore {
             cas_match = Some(result);
             result
         }) {
-            Some(key_value) => Ok(key_value.1),
+            Some(key_value) => {
+                self.account(0, key_value.1.len());
+                Ok(key_value.1)
+            }
             None => match cas_match {
                 Some(_value) => Err(CacheError::KeyExists),
                 None => Err(CacheError::NotFound),
@@ -172,7 +198,10 @@ impl Cache for MemoryStore {
                 value
             });
         } else {
-            self.memory.clear();
+            self.memory.retain(|_key, value| {
+                self.account(0, value.len());
+                false
+            });
         }
     }
 
@@ -196,6 +225,10 @@ impl Cache for MemoryStore {
 
     fn len(&self) -> usize {
         self.memory.len()
+    }
+
+    fn memory_usage(&self) -> u64 {
+        self.memory_usage.load(Ordering::Acquire)
     }
 
     fn is_empty(&self) -> bool {
